@@ -34,6 +34,16 @@ Theorem C15_Busy_tracker_unaffected : forall evs c c' o, waiting c = false -> br
 Proof. exact projects. Qed.
 Print Assumptions C15_Busy_tracker_unaffected.
 
+(* a session that ends tells the server task with `send(SessionClose(id)).await` (generated: session_close_notice), which
+   is never lost: after a client closed or sent garbage the tracker holds no record of that session any more, however
+   many sessions end at the same moment - so ended sessions never use up slots (with a `try_send` notice the model has
+   no SessionEnded event here, this proof and C15_Busy_refines_spec stop compiling) *)
+Theorem C15_Busy_ended_session_record_removed : forall c k c' o, waiting c = false -> running (base c) = true ->
+  (brun_gen c (bexpand (ClientClose k)) = Some (c', o) \/ brun_gen c (bexpand (Garbage k)) = Some (c', o)) ->
+  ~ In k (map fst (sessions (trk (base c')))).
+Proof. exact ended_session_record_removed. Qed.
+Print Assumptions C15_Busy_ended_session_record_removed.
+
 (* for every max_sessions and every script the observable trace (open sockets, port, value, answered parked
    requests) is the Spec's: level changes, connections, requests on other sessions and shutdown are served at once
    while a handler is parked; a session the server closes meanwhile keeps only its socket until the handler returns *)
